@@ -130,7 +130,7 @@ def strip_views(t):
         if t.op == 'call':
             ln = lib_name(t)
             f = t.args[0]
-            if ln in ('numpy.asarray', 'numpy.ascontiguousarray', 'numpy.array', 'numpy.copy', 'numpy.asanyarray') and t.args[1]:
+            if ln in ('numpy.asarray', 'numpy.ascontiguousarray', 'numpy.array', 'numpy.copy', 'numpy.asanyarray', 'pbv.memoised') and t.args[1]:
                 t = t.args[1][0]
                 continue
             if f.op == 'attr' and f.args[1] in ('copy', 'astype', 'view'):
